@@ -138,7 +138,7 @@ class Response(AbstractResponse):
                 raise DeserializationError(f"jsonrpc version '{json_data['jsonrpc']}' is not supported")
 
             id = json_data.get('id')
-            if id is not None and not isinstance(id, (int, str)):
+            if id is not None and (isinstance(id, bool) or not isinstance(id, (int, str))):
                 raise DeserializationError("field 'id' must be of type integer or string")
 
             error = json_data.get('error', UNSET)
@@ -303,7 +303,7 @@ class Request(AbstractRequest):
                 raise DeserializationError(f"jsonrpc version '{json_data['jsonrpc']}' is not supported")
 
             id = json_data.get('id')
-            if id is not None and not isinstance(id, (int, str)):
+            if id is not None and (isinstance(id, bool) or not isinstance(id, (int, str))):
                 raise DeserializationError("field 'id' must be of type integer or string")
 
             method = json_data['method']
